@@ -27,6 +27,32 @@ def probe(d, types, cc, flags, tag):
     return res
 
 
+def layout_twins(case):
+    """(a, b): two copies of the program plus one more struct whose two definitions have the same name, size, member names and member types but
+    different member *offsets* (the widths of two adjacent bit-fields are exchanged), reachable from a function of its own -- the case
+    'different translation units define different types with the same name' at its most similar"""
+    import copy
+    out = []
+    mx = max([t["id"] for t in case["types"] if t["k"] in ("struct", "union", "enum", "typedef")] + [f["id"] for f in case["fns"]] + [v["id"] for v in case["vars"]] + [0])
+    for widths in ((3, 5), (5, 3)):
+        cs = copy.deepcopy(case)
+        ts = cs["types"]
+        def add(t):
+            ts.append(t)
+            return len(ts)
+        blank = lambda k, i, t=0: {"k": k, "id": i, "t": t, "d": 0, "m": [], "e": [], "b": [], "vf": [], "mf": []}
+        u = add(blank("base", 7))
+        n = add(blank("base", 3))
+        st = blank("struct", mx + 1)
+        st["m"] = [{"n": 1, "t": u, "bw": widths[0], "acc": "public"}, {"n": 2, "t": u, "bw": widths[1], "acc": "public"}, {"n": 3, "t": n, "bw": 0, "acc": "public"}]
+        si = add(st)
+        pi = add(blank("ptr", 0, si))
+        cs["fns"].append({"id": mx + 2, "r": 0, "p": [{"t": pi, "c": False}]})
+        cs["reach"] = list(cs["reach"]) + [si]
+        out.append(cs)
+    return out
+
+
 def main():
     c = vf.Check("C15", "exploration")
     vf.build("hooks")
@@ -48,9 +74,13 @@ def main():
         cc, flags = campaign.COMPILERS[comp]
         d = os.path.join(c.workdir, "p%d" % idx, comp)
         os.makedirs(d, exist_ok=True)
-        if idx % 4 == 3 and idx + 1 < len(cases):
-            # two programs in two TUs of ONE binary: same-named types (S<n>, U<n>) with different definitions
-            other = cases[idx + 1]
+        if (idx % 4 == 3 and idx + 1 < len(cases)) or idx % 4 == 1:
+            # two programs in two TUs of ONE binary: same-named types (S<n>, U<n>) with different definitions -- either an unrelated program,
+            # or (idx % 4 == 1) the same program again where one struct differs in member offsets only
+            if idx % 4 == 1:
+                case, other = layout_twins(case)
+            else:
+                other = cases[idx + 1]
             srcs = []
             for tag, cs in (("a", case), ("b", other)):
                 files = cprog.render(cs["types"], cs["fns"], cs["vars"], "c", {"seed": idx})
@@ -69,9 +99,10 @@ def main():
             pa, pb = probe(d, case["types"], cc, flags, "a"), probe(d, other["types"], cc, flags, "b")
             if pa is None or pb is None:
                 return ("discard", "probe-failed")
-            pfacts = pa + pb
+            ra, rb = set(names_of(case, case["reach"])), set(names_of(other, other["reach"]))
+            pfacts = [dict(x, reach=(x["name"] in ra)) for x in pa] + [dict(x, reach=(x["name"] in rb)) for x in pb]      # reachability is per program (translation unit)
             reach = names_of(case, case["reach"]) + names_of(other, other["reach"])
-            variant = "two-programs-one-binary"
+            variant = "two-programs-one-binary" if idx % 4 == 3 else "layout-twins-one-binary"
         else:
             path, err, d2 = campaign.build_one(c, idx, case, comp, style={"tus": 1 + idx % 2, "seed": idx}, sub=comp)
             if not path:
@@ -80,6 +111,7 @@ def main():
             if pfacts is None:
                 return ("discard", "probe-failed")
             reach = names_of(case, case["reach"])
+            pfacts = [dict(x, reach=(x["name"] in set(reach))) for x in pfacts]
             variant = "single"
         r = vf.run([abidw, "--no-show-locs", path], env=vf.henv(d), binary=True)
         pr = abixml.project(r.out)
